@@ -249,7 +249,7 @@ def run_shard(fam, tier, seed, shard, nshards, outdir, extra):
            "--nshards", str(nshards), "--out", outdir] + extra
     p = subprocess.run(cmd, stdout=subprocess.PIPE, stderr=subprocess.STDOUT, text=True)
     if p.returncode != 0:
-        return shard, f"harness exited {p.returncode}: {p.stdout[-2000:]}"
+        return shard, ("CRASH", f"harness exited {p.returncode}: {p.stdout[-1500:]}")
     with open(f"{outdir}/cases.{shard}.txt", "rb") as fin, open(f"{outdir}/model.{shard}.txt", "wb") as fout:
         q = subprocess.run([DRIVER_BIN, fam], stdin=fin, stdout=fout, stderr=subprocess.PIPE,
                            preexec_fn=unlimit_stack)
@@ -268,6 +268,36 @@ def unlimit_stack():
             resource.setrlimit(resource.RLIMIT_STACK, (hard, hard))
         except Exception:
             pass
+
+
+def impl_survives(fam, cases):
+    p = subprocess.run([HARNESS_BIN, fam, "eval"], input="\n".join(cases) + "\n",
+                       stdout=subprocess.PIPE, stderr=subprocess.PIPE, text=True)
+    return p.returncode == 0
+
+
+def locate_crash(fam, tier, seed, shard, nshards, outdir, extra):
+    """Regenerates the shard's case lines without running them, then bisects for a case on
+    which the implementation process dies."""
+    cmd = [HARNESS_BIN, fam, "gen", "--tier", tier, "--seed", str(seed), "--shard", str(shard),
+           "--nshards", str(nshards), "--out", outdir, "--cases-only"] + extra
+    p = subprocess.run(cmd, stdout=subprocess.PIPE, stderr=subprocess.STDOUT, text=True)
+    if p.returncode != 0:
+        return None
+    cases = open(f"{outdir}/cases.{shard}.txt", encoding="utf-8", errors="replace").read().split("\n")
+    cases = [c for c in cases if c]
+    if impl_survives(fam, cases):
+        return None
+    lo, hi = 0, len(cases)          # invariant: cases[lo:hi] crashes
+    while hi - lo > 1:
+        mid = (lo + hi) // 2
+        if not impl_survives(fam, cases[lo:mid]):
+            hi = mid
+        elif not impl_survives(fam, cases[mid:hi]):
+            lo = mid
+        else:
+            break                   # needs both halves (state-dependent): give the window
+    return cases[lo] if hi - lo == 1 else None
 
 
 def eval_impl(fam, cases):
@@ -335,9 +365,12 @@ class Result:
         self.samples = []
         self.stats = {}
         self.errors = []
+        self.crashes = []
+        self.crash_case = None
+        self.crash_msg = ""
 
 
-def correspondence(fam, tier, seed, nshards, nontrivial, extra=None, classify=None, sample_every=997):
+def correspondence(fam, tier, seed, nshards, nontrivial, extra=None, classify=None, sample_every=997, spec_matches=None):
     """Runs harness and driver shards in parallel and compares line by line."""
     res = Result()
     outdir = f"{BUILD}/run/{fam}"
@@ -347,8 +380,16 @@ def correspondence(fam, tier, seed, nshards, nontrivial, extra=None, classify=No
         futs = [ex.submit(run_shard, fam, tier, seed, i, nshards, outdir, extra or []) for i in range(nshards)]
         for f in futs:
             shard, err = f.result()
-            if err:
+            if isinstance(err, tuple):
+                res.crashes.append((shard, err[1]))
+            elif err:
                 res.errors.append(f"shard {shard}: {err}")
+    if res.crashes:
+        # the implementation aborted (abort, stack overflow, non-unwinding panic): find the case
+        shard, msg = res.crashes[0]
+        res.crash_case = locate_crash(fam, tier, seed, shard, nshards, outdir, extra or [])
+        res.crash_msg = msg
+        return res
     if res.errors:
         return res
     for i in range(nshards):
@@ -368,7 +409,7 @@ def correspondence(fam, tier, seed, nshards, nontrivial, extra=None, classify=No
                 if impl != model:
                     if len(res.mismatches) < 2000:
                         res.mismatches.append((case, impl, model, spec))
-                elif spec and spec != model:
+                elif spec and (not spec_matches(model, spec) if spec_matches else spec != model):
                     if len(res.spec_mismatches) < 200:
                         res.spec_mismatches.append((case, impl, model, spec))
                 if nontrivial(case, impl):
@@ -448,9 +489,20 @@ def run_property(cfg, tier, seed):
     if ok_m and ok_d and ok_h:
         nsh = cfg.get("nshards", {}).get(tier, 1)
         extra = cfg["extra_args"](tier) if "extra_args" in cfg else []
-        res = correspondence(fam, tier, seed, nsh, cfg["nontrivial"], extra=extra)
-        for e in res.errors:
-            violations.append(("run", e, {"kind": "run-error", "error": e}))
+        res = correspondence(fam, tier, seed, nsh, cfg["nontrivial"], extra=extra, spec_matches=cfg.get("spec_matches"))
+        for e in res.errors[:1]:
+            violations.append(("run", e, {"kind": "run-error", "error": e, "all_errors": res.errors[:16]}))
+        if res.crashes:
+            if res.crash_case:
+                mo, sp = eval_model(fam, [res.crash_case])[0]
+                violations.append(("corr", f"the implementation process dies on case: {res.crash_case[:200]}",
+                                   {"kind": "correspondence", "property": pid, "disagreement": "impl-aborts",
+                                    "case": res.crash_case, "impl": "ABORT: " + res.crash_msg[-300:], "model": mo, "spec": sp,
+                                    "seed": seed, "tier": tier,
+                                    "replay": f"echo '{res.crash_case}' | {HARNESS_BIN} {fam} eval"}))
+            else:
+                violations.append(("run", "the harness process died: " + res.crash_msg[-300:],
+                                   {"kind": "run-error", "error": res.crash_msg}))
         differs = cfg.get("differs", default_differs)
         known = cfg.get("known")
         kf = load_known()
